@@ -97,13 +97,21 @@ def delAddrStep (h : Nat) (sf : State × Bool) (a : Nat) : State × Bool :=
 def delRelayStep (h : Nat) (s : State) (i : Nat) : State :=
   if s.relays.get i = some h then { s with relays := s.relays.del i } else s
 
+/-- `if hm.RemoteIndexes[k] == hostinfo { delete(hm.RemoteIndexes, k) }` -/
+def condDelRidx (s : State) (h k : Nat) : State :=
+  if s.rindexes.get k = some h then { s with rindexes := s.rindexes.del k } else s
+
+/-- `if hm.Indexes[k] == hostinfo { delete(hm.Indexes, k) }` (the F08 ownership check) -/
+def condDelIdx (s : State) (h k : Nat) : State :=
+  if s.indexes.get k = some h then { s with indexes := s.indexes.del k } else s
+
 /-- `unlockedDeleteHostInfo` (the relay *state* changes of `unlockedDisestablishVpnAddrRelayFor` do not touch
 any map and are not modelled). -/
 def deleteHost (s : State) (h : Nat) : State × Bool :=
   let o := s.obj h
   let (s, final) := o.addrs.foldl (delAddrStep h) (s, true)
-  let s := if s.rindexes.get o.ridx = some h then { s with rindexes := s.rindexes.del o.ridx } else s
-  let s := if s.indexes.get o.lidx = some h then { s with indexes := s.indexes.del o.lidx } else s
+  let s := condDelRidx s h o.ridx
+  let s := condDelIdx s h o.lidx
   let s := o.relays.foldl (delRelayStep h) s
   (s, final)
 
@@ -227,5 +235,71 @@ def checkAndComplete (s : State) (h : Nat) : State × CheckRes :=
 
 /-- `Complete` -/
 def complete (s : State) (h : Nat) : State := addHost (pendingDelete s h) h
+
+/-! ### the operations of the correspondence stream (the callers' glue around the functions above) -/
+
+/-- index part of `buildStage0Packet` reached from `handleOutbound` (`if !hh.ready`) for the pending handshake of `a` -/
+def opAlloc (s : State) (a : Nat) (st : List Nat) : State × Option AllocRes :=
+  match s.vpnIps.get a with
+  | none => (s, none)
+  | some h =>
+    if (s.obj h).ready then (s, none) else
+    let (s', r) := allocateIndex s h st
+    match r with
+    | .ok _ => (s'.setObj h { s'.obj h with ready := true }, some r)
+    | _ => (s', some r)
+
+inductive FinRes where
+  | noPending
+  | completed (h : Nat)
+  | wrongHost (h' : Nat) (isNew : Bool)
+  deriving Repr, DecidableEq
+
+/-- tail of `continueHandshake`: the pending handshake holding index `i` is answered by a peer whose certificate
+names `ads`, with remote index `r` and handshake time `t` -/
+def opFin (s : State) (i : Nat) (ads : List Nat) (r t : Nat) : State × FinRes :=
+  match s.pidx.get i with
+  | none => (s, .noPending)
+  | some h =>
+    let a0 := (s.obj h).addrs.headD 0
+    if ads.contains a0 then
+      let s1 := s.setObj h { s.obj h with addrs := ads, ridx := r, hsTime := t, initiator := true }
+      (complete s1 h, .completed h)
+    else
+      let (s', h', isNew) := startHandshake (pendingDelete s h) a0
+      (s', .wrongHost h' isNew)
+
+/-- tail of `beginHandshake`: `generateIndex`, a fresh hostinfo, `CheckAndComplete` -/
+def opResp (s : State) (ads : List Nat) (r p t : Nat) (st : List Nat) : Option (State × Nat × Nat × CheckRes) :=
+  match genIndex st with
+  | none => none
+  | some (idx, _) =>
+    let h := s.next
+    let s1 := { s with objs := s.objs.set h { addrs := ads, lidx := idx, ridx := r, pkt := p, hsTime := t }, next := s.next + 1 }
+    let (s', cr) := checkAndComplete s1 h
+    some (s', h, idx, cr)
+
+inductive Op where
+  | start (a : Nat)
+  | alloc (a : Nat) (st : List Nat)
+  | fin (i : Nat) (ads : List Nat) (r t : Nat)
+  | resp (ads : List Nat) (r p t : Nat) (st : List Nat)
+  | del (h : Nat)
+  | pdel (h : Nat)
+  | prim (h : Nat)
+  | relay (h : Nat) (st : List Nat)
+  deriving Repr
+
+def applyOp (s : State) : Op → State
+  | .start a => (startHandshake s a).1
+  | .alloc a st => (opAlloc s a st).1
+  | .fin i ads r t => (opFin s i ads r t).1
+  | .resp ads r p t st => match opResp s ads r p t st with | some (s', _) => s' | none => s
+  | .del h => (deleteHost s h).1
+  | .pdel h => pendingDelete s h
+  | .prim h => (makePrimary s h).1
+  | .relay h st => (addRelay s h st).1
+
+def run (s : State) (ops : List Op) : State := ops.foldl applyOp s
 
 end Nebula.HostMap
